@@ -1,6 +1,7 @@
 """C07 — corrupted pages never yield data; CRC is CRC-32C in both back ends (DESIGN §4 C07)."""
 from mirlib import *
 import cache_rules
+import io_rules
 import crc_rules
 
 TECHNIQUE = "MIR typestate of the page cache (who-may-write, invalidate-on-clobber, validate-before-publish, serve-only-verified by edge cuts) + expression-tree match of the CRC-32C algorithm + cross-cfg sibling comparison"
@@ -11,7 +12,7 @@ EXPLANATION = (
     "through the equal-edge of the comparison of page_buffer[size-4..] with to_be_bytes(crc(page_buffer[..size-4])); the "
     "copy out of page_buffer in Read::read is unreachable once the cache-hit edge and the Ok-edge of read_page are cut; "
     "Crc32::new/calculate have the reflected Castagnoli table/step shape; validate_crc loops on read until 0 and "
-    "propagates errors. The cursor of the page reader moves only after the page was verified, and the validation loop ends only on a zero-length read. Not decided: detection strength of CRC-32C and behaviour on concrete corruptions.")
+    "propagates errors. The cursor of the page reader moves only after the page was verified, and the validation loop ends only on a zero-length read. An inspected Err (a checksum failure arrives as one) never ends in a successful return or in the end of an iteration (C16-R5). Not decided: detection strength of CRC-32C and behaviour on concrete corruptions.")
 
 
 def run(ctx):
@@ -22,6 +23,7 @@ def run(ctx):
     ctx.rule("R5", "Crc32::new / calculate are the table-driven reflected CRC-32C (poly 0x82F63B78, init/xorout all ones)")
     ctx.rule("R6", "with feature crc32c the three CRC sites call crc32c::crc32c on the same slice tree as Crc32::calculate without it")
     ctx.rule("R7", "validate_crc reads page-size chunks until read returns 0 and propagates every read error")
+    ctx.rule("R8", "a failed page read is reported: an Err result that was inspected never leads to a successful return or to the end of an iteration (shared with C16-R5)")
     cfgs = ["lib", "lib_crc32c"]
     summaries = {}
     for cfg in cfgs:
@@ -30,6 +32,7 @@ def run(ctx):
         ctx.cfg = cfg
         summaries[cfg] = cache_rules.paged_reader_rules(ctx, prog, crc_kind=("table" if cfg == "lib" else "crate"))
         cache_rules.validate_crc_rule(ctx, prog)
+        io_rules.no_error_turned_into_success(ctx, prog, "R8")
         if cfg == "lib":
             crc_rules.crc32c_shape(ctx, prog)
     ctx.cfg = None
